@@ -787,6 +787,23 @@ class Processor:
         - `YAMLPathException` when the operation would destroy the entire
            document
         """
+        # Collectors and slices hand over results wrapped in -- and
+        # positioned within -- virtual lists; what gets deleted are the nodes
+        # they wrap, where those are held in the document.
+        def unwrapped(wrapped_ncs: List[NodeCoords]) -> Generator[
+            NodeCoords, None, None
+        ]:
+            for wrapped_nc in wrapped_ncs:
+                wrapped_node = wrapped_nc.node
+                if isinstance(wrapped_node, NodeCoords):
+                    yield from unwrapped([wrapped_node])
+                elif (isinstance(wrapped_node, list) and len(wrapped_node) > 0
+                        and isinstance(wrapped_node[0], NodeCoords)):
+                    yield from unwrapped(wrapped_node)
+                else:
+                    yield wrapped_nc
+        delete_nodes = list(unwrapped(delete_nodes))
+
         # Refuse to delete the document root BEFORE deleting anything else,
         # however deeply Collectors have wrapped it
         def refuse_document_root(check_ncs: List[NodeCoords]) -> None:
